@@ -93,6 +93,8 @@ package op
 // ValidateRefreshTokenRequest accepted, with the presented refresh token handed on for rotation.
 //@ func op.RefreshTokenExchange
 //@   requires !Resp_written[w] && valid(r) && valid(exchanger) && valid(w)
+//@   modifies Resp_written[w], Resp_status[w], Resp_location[w], Resp_body[w]
+//@   unframed
 //@   ensures responded: Resp_written[w]
 //@   ensures success: Resp_status[w] == 200 ==> callres("op.ValidateRefreshTokenRequest", 2) == nil
 //@        && tokensIssued(as(Resp_body[w], "*oidc.AccessTokenResponse"), callres("op.ValidateRefreshTokenRequest", 0),
@@ -132,6 +134,7 @@ package op
 
 //@ func op.VerifyAccessToken
 //@   requires valid(v)
+//@   modifies wallclock, os(v.KeySet)
 //@   ensures clock: old(wallclock) <= wallclock
 //@   ensures valid: err == nil ==> valid(claims)
 //@   ensures issuer: err == nil ==> claims.GetIssuer() == v.Issuer
@@ -143,6 +146,7 @@ package op
 // (logout may still trust it); every other failure returns no claims.
 //@ func op.VerifyIDTokenHint
 //@   requires valid(v)
+//@   modifies wallclock, os(v.KeySet)
 //@   ensures clock: old(wallclock) <= wallclock
 //@   ensures valid: err == nil || typeis(err, "IDTokenHintExpiredError") ==> valid(claims)
 //@   ensures issuer: err == nil || typeis(err, "IDTokenHintExpiredError") ==> claims.GetIssuer() == v.Issuer
@@ -154,10 +158,6 @@ package op
 //@ loop op.intercept$1#1
 //@   invariant bounds: 0 - 1 <= i && i < len(*interceptors)
 
-// ---- C03 building blocks ----
-//@ func op.HTTPLoopbackOrLocalhost
-//@   modifies nothing
-//@   ensures parsed: result1 ==> result0 != nil
 
 // ---- C02: the provider's key sets and their wiring ----
 
@@ -259,6 +259,121 @@ package op
 // jwt-bearer grant (legacy handler): a 200 answer only after the assertion verified.
 //@ func op.JWTProfile
 //@   requires !Resp_written[w] && valid(r) && valid(exchanger) && valid(w)
+//@   modifies Resp_written[w], Resp_status[w], Resp_location[w], Resp_body[w]
+//@   unframed
 //@   ensures responded: Resp_written[w]
 //@   ensures success-only-verified: Resp_status[w] == 200 ==> callres("op.VerifyJWTAssertion", 1) == nil
 //@        && callres("op.CreateJWTTokenResponse", 1) == nil
+
+// ---- C03: redirect URI validation. registeredRedirect is written from the property statement.
+
+// isLoopbackURL(raw) is *defined* as the second result of HTTPLoopbackOrLocalhost: an http(s) URL
+// whose host is "localhost" or a loopback IP (url.Parse / net.ParseIP are trusted).
+//@ spec func isLoopbackURL(raw string) bool
+//@ func op.HTTPLoopbackOrLocalhost
+//@   modifies nothing
+//@   defines loopback: result1 == isLoopbackURL(rawURL)
+//@   ensures parsed: result1 ==> result0 != nil
+//@   ensures http-only: result1 ==> urlScheme(rawURL) == "http" || urlScheme(rawURL) == "https"
+//@   ensures same-target: result0 != nil ==> result0.Path == urlPath(rawURL) && result0.RawQuery == urlRawQuery(rawURL)
+
+// exactOrGlob: an exact string match, or a match of a glob of a client that opted into globs.
+//@ spec func exactOrGlob(c Client, uri string) bool = contains(c.RedirectURIs(), uri)
+//@      || (implements(c, "HasRedirectGlobs") && exists g int :: 0 <= g && g < len(as(c, "HasRedirectGlobs").RedirectURIGlobs()) && globMatch(as(c, "HasRedirectGlobs").RedirectURIGlobs()[g], uri))
+// loopbackVariant: a loopback address that equals a registered loopback URI in path and query
+// (scheme, host spelling and port may differ).
+//@ spec func loopbackVariant(c Client, uri string) bool = isLoopbackURL(uri) && exists j int :: 0 <= j && j < len(c.RedirectURIs())
+//@      && isLoopbackURL(c.RedirectURIs()[j]) && urlPath(c.RedirectURIs()[j]) == urlPath(uri) && urlRawQuery(c.RedirectURIs()[j]) == urlRawQuery(uri)
+//@ spec func registeredRedirect(c Client, uri string, rt oidc.ResponseType) bool = uri != "" && (
+//@      (c.ApplicationType() == ApplicationTypeNative &&
+//@          ((exactOrGlob(c, uri) && (c.DevMode() || isLoopbackURL(uri) || !hasPrefix(uri, "http://"))) || loopbackVariant(c, uri)))
+//@   || (c.ApplicationType() != ApplicationTypeNative && exactOrGlob(c, uri) &&
+//@          (hasPrefix(uri, "https://") || (hasPrefix(uri, "http://") && (c.DevMode() || (rt == oidc.ResponseTypeCode && c.ApplicationType() == ApplicationTypeWeb))))))
+
+// redirectDisabledErr(err): an *oidc.Error that must be shown to the user and never redirected.
+//@ spec func redirectDisabledErr(err error) bool = asErr("*oidc.Error", err) != nil && asErr("*oidc.Error", err).redirectDisabled
+// validatedRedirect(uri) is *defined* as "ValidateAuthReqRedirectURI accepted uri for the client
+// of this request" (what acceptance means is the post registered of that function).
+//@ spec func validatedRedirect(uri string) bool
+
+//@ loop op.checkURIAgainstRedirects#1
+//@   invariant none-yet: forall g int :: 0 <= g && g <= rangeindex ==> !globMatch(globClient.RedirectURIGlobs()[g], uri)
+//@ loop op.validateAuthReqRedirectURINative#1
+//@   invariant true-so-far: true
+
+//@ func op.ValidateAuthReqRedirectURI
+//@   requires valid(client)
+//@   modifies nothing
+//@   ensures registered: err == nil ==> registeredRedirect(client, uri, responseType)
+//@   defines validated: err == nil ==> validatedRedirect(uri)
+//@   ensures no-redirect-on-error: err != nil ==> redirectDisabledErr(err)
+
+// responseURLFor(url, redirectURI) is *defined* as "AuthResponseURL built url from redirectURI"
+// (that scheme, host, path and existing query are kept is C11).
+//@ spec func responseURLFor(url string, redirectURI string) bool
+//@ func op.AuthResponseURL
+//@   requires valid(encoder)
+//@   defines built: err == nil ==> responseURLFor(result0, redirectURI)
+//@   ensures fail-closed: err != nil ==> result0 == ""
+
+// Every redirect-enabled error is raised only after the redirect URI was validated.
+//@ func op.ValidateAuthRequestClient
+//@   requires valid(authReq) && valid(client)
+//@   ensures validated-or-disabled: err != nil && !redirectDisabledErr(err) ==> validatedRedirect(old(authReq.RedirectURI))
+//@   ensures ok-validated: err == nil ==> validatedRedirect(old(authReq.RedirectURI))
+//@   ensures uri-kept: authReq.RedirectURI == old(authReq.RedirectURI)
+//@ func op.Authorize$1
+//@   requires valid(authReq) && valid(authorizer)
+//@   ensures validated-or-disabled: err != nil && !redirectDisabledErr(err) ==> validatedRedirect(authReq.RedirectURI)
+//@   ensures ok-validated: err == nil ==> validatedRedirect(authReq.RedirectURI)
+
+// An error of an authorization request is redirected only to a validated redirect URI; without an
+// auth request, without a URI or for a redirect-disabled error it is shown directly (400).
+//@ func op.AuthRequestError
+//@   requires once: !Resp_written[w]
+//@   requires err != nil && valid(authorizer) && valid(r) && valid(w)
+//@   requires validated-target: authReq == nil || authReq.GetRedirectURI() == "" || redirectDisabledErr(err) || validatedRedirect(authReq.GetRedirectURI())
+//@   modifies Resp_written[w], Resp_status[w], Resp_location[w], Resp_body[w], os(w), deep(asErr("*oidc.Error", err))
+//@   ensures responded: Resp_written[w]
+//@   ensures shown-directly: authReq == nil || authReq.GetRedirectURI() == "" || old(redirectDisabledErr(err)) ==> Resp_status[w] == 400
+//@   ensures redirect-target: Resp_status[w] == 302 ==> authReq != nil && responseURLFor(Resp_location[w], authReq.GetRedirectURI())
+//@ func op.TryErrorRedirect
+//@   requires parent != nil && valid(encoder) && valid(logger)
+//@   requires validated-target: authReq == nil || authReq.GetRedirectURI() == "" || redirectDisabledErr(parent) || validatedRedirect(authReq.GetRedirectURI())
+//@   ensures either: (result0 == nil) != (result1 == nil)
+//@   ensures shown-directly: authReq == nil || authReq.GetRedirectURI() == "" || old(redirectDisabledErr(parent)) ==> result0 == nil
+//@   ensures redirect-target: result0 != nil ==> authReq != nil && responseURLFor(result0.URL, authReq.GetRedirectURI())
+
+// The authorization endpoint (legacy router).
+//@ func op.Authorize
+//@   requires !Resp_written[w] && valid(r) && valid(authorizer) && valid(w)
+//@   modifies Resp_written[w], Resp_status[w], Resp_location[w], Resp_body[w]
+//@   unframed
+//@   ensures responded: Resp_written[w]
+//@ func op.AuthorizeCallback
+//@   requires !Resp_written[w] && valid(r) && valid(authorizer) && valid(w)
+//@   modifies Resp_written[w], Resp_status[w], Resp_location[w], Resp_body[w]
+//@   unframed
+//@ func op.AuthResponse
+//@   requires !Resp_written[w] && valid(r) && valid(authorizer) && valid(w) && valid(authReq)
+//@   modifies Resp_written[w], Resp_status[w], Resp_location[w], Resp_body[w]
+//@   unframed
+//@   requires validated: validatedRedirect(authReq.GetRedirectURI())
+//@ func op.AuthResponseCode
+//@   requires !Resp_written[w] && valid(r) && valid(authorizer) && valid(w) && valid(authReq)
+//@   modifies Resp_written[w], Resp_status[w], Resp_location[w], Resp_body[w]
+//@   unframed
+//@   requires validated: validatedRedirect(authReq.GetRedirectURI())
+//@   ensures redirect-target: Resp_status[w] == 302 ==> responseURLFor(Resp_location[w], authReq.GetRedirectURI())
+//@ func op.AuthResponseToken
+//@   requires !Resp_written[w] && valid(r) && valid(authorizer) && valid(w) && valid(authReq) && valid(client)
+//@   modifies Resp_written[w], Resp_status[w], Resp_location[w], Resp_body[w]
+//@   unframed
+//@   requires validated: validatedRedirect(authReq.GetRedirectURI())
+//@   ensures redirect-target: Resp_status[w] == 302 ==> responseURLFor(Resp_location[w], authReq.GetRedirectURI())
+
+// The authorization endpoint (Server interface router): the Server's Authorize method is reached
+// only with a validated redirect URI, and may redirect errors only there.
+//@ func op.LegacyServer.Authorize
+//@   requires valid(s) && valid(s.provider) && valid(r) && valid(r.Data) && valid(r.Client)
+//@   requires validated: validatedRedirect(r.Data.RedirectURI)
